@@ -60,6 +60,16 @@ breaking('R1-control-uniform-offset', {'C03': 'R1'}, edit=[(M + 'sim/state.py', 
 breaking('D5-sorted-targets', {'C03': 'D5'}, edit=[(M + 'sim/circuit.py', "target_qubit = hf_tuple_of_int(index[1])", "target_qubit = tuple(sorted(hf_tuple_of_int(index[1])))")])
 breaking('refix-euler-rank-eq-dim', {'C01': 'SH2'}, patch_reverse='fix_dd44bd4.diff')
 breaking('SH2-row-short', {'C01': 'SH2'}, edit=[(M + 'manifold/_stiefel.py', "rowJ = np.concatenate([ct[:,:1], ct[:,1:]*cum_st[:,:-1], cum_st[:,-1:]], axis=1).reshape(batch,N0+1,1)", "rowJ = np.concatenate([ct[:,:1], ct[:,2:]*cum_st[:,:-2], cum_st[:,-1:]], axis=1).reshape(batch,N0+1,1)")])
+breaking('refix-asym-error-set', {'C19': 'Q5'}, patch_reverse='fix_b3deded.diff')
+breaking('HM1-lost-conj', {'C10': 'HM1'}, edit=[(M + 'random/_internal.py', "        tmp0 = EVC.T.conj() if tag_complex else EVC.T\n        ret = (EVC * EVL) @ tmp0", "        ret = (EVC * EVL) @ EVC.T")])
+breaking('HM1-lost-conj-ginibre', {'C10': 'HM1'}, edit=[(M + 'random/_internal.py', "ret = ginibre_ensemble @ ginibre_ensemble.T.conj()", "ret = ginibre_ensemble @ ginibre_ensemble.T")])
+breaking('A6-batch-column-dropped', {'C04': 'A6'}, edit=[(M + '_torch_op.py', "tmp1[ind_zero[:,0],ind_zero[:,1],ind_zero[:,1]] = 0", "tmp1[:,ind_zero[:,1],ind_zero[:,1]] = 0")])
+breaking('G4-antilinear-synthesis', {'C16': 'G4'}, edit=[(M + 'gellmann.py', "ret1 = torch.scatter(zero0, 0, indU012, (vec0 + 1j*vec1).view(-1)).reshape(N0, N1, N1).transpose(1,2)", "ret1 = ret0.conj().transpose(1,2)")])
+breaking('G4-with_I-before-kron', {'C16': 'G4'}, edit=[(M + 'gellmann.py', "    tmp0 = [gellmann_matrix(0, 0, d)]\n", "    tmp0 = [gellmann_matrix(0, 0, d)] if with_I else []\n")])
+breaking('T3-gram-nuclear-norm', {'C05': 'T3'}, edit=[(M + 'entangle/ppt.py', "ret.append((dim0, dim1, np.linalg.norm(tmp1, ord='nuc')))", "ret.append((dim0, dim1, np.sqrt(np.maximum(0, np.linalg.eigvalsh(tmp1 @ tmp1.T.conj()))).sum()))")])
+breaking('SV1-status-optimal-only', {'C05': 'SV1'}, edit=[(M + 'entangle/symext.py', "tmp0 = not np.isinf(prob.value)", "tmp0 = prob.status==cvxpy.OPTIMAL")])
+breaking('B1-dropped-clamp', {'C12': 'B1'}, edit=[(M + 'utils.py', "            ret = np.sum(np.sqrt(np.maximum(0, tmp2)))**2", "            ret = np.sum(np.sqrt(tmp2))**2")])
+breaking('Q5-nz-short', {'C19': 'Q5'}, edit=[(M + 'qec/_internal.py', "for nz in range(min(num_qubit-nxy+1, tmp0)):", "for nz in range(min(num_qubit-nxy, tmp0)):")])
 breaking('refix-get_gme_2qubit', {'C13': 'F2', 'C05': 'F2'}, patch_reverse='fix_78cd862.diff')
 
 # ---- textual breaking edits, one per rule family
